@@ -32,8 +32,6 @@ static bool is_printable(const sqfs_u8 *value, size_t len)
 				if (x < 0x20) {
 					if (x >= 0x07 && x <= 0x0D)
 						continue;
-					if (x == 0x00)
-						continue;
 					return false;
 				}
 
@@ -84,6 +82,7 @@ int dump_xattrs(sqfs_xattr_reader_t *xattr, const sqfs_inode_generic_t *inode)
 			printf("%s=", ent->key);
 		} else {
 			print_hex((const sqfs_u8 *)ent->key, key_len);
+			fputc('=', stdout);
 		}
 
 		if (is_printable(ent->value, ent->value_len)) {
